@@ -59,6 +59,13 @@ def assoc_subscripts(fn):
                             if c_.get("k") == "MCall" and callee_name(c_) in ("swap", "assign", "clear", "insert", "emplace") and path(c_.get("recv")) and \
                                     len(path(c_["recv"])) == 1 and path(c_["recv"])[0].endswith("#%s" % rid):
                                 is_write = True
+                            # slot[k] = v through the reference
+                            if c_.get("k") == "OpCall" and c_.get("op") == "[]" and c_.get("args") and path(c_["args"][0]) and \
+                                    len(path(c_["args"][0])) == 1 and path(c_["args"][0])[0].endswith("#%s" % rid):
+                                for lp_, rhs_, node_ in consumption.assignment_targets(ir.stmts(fn["body"])):
+                                    lhs_ = node_.get("lhs") if node_.get("k") == "Bin" else (node_.get("args") or [None])[0]
+                                    if lhs_ is not None and unwrap(lhs_) is c_:
+                                        is_write = True
                     out.append((n, is_write, g, parents, loops))
     return out
 
@@ -301,6 +308,19 @@ def check(run):
                 rp_ = path(rhs_)
                 if lp_ and len(lp_) == 1 and lp_[0].startswith("l:") and rp_ and rp_[-1] == "m_file_preamble":
                     ref_assign = (lp_, node_, g)
+        if ref_assign is None:
+            # built aside: `FilePreamble merged = first ? reader.m_file_preamble : file_preamble;` committed later
+            for st, g, loops_ in ir.guarded_statements(p1.get("body"), env):
+                if st.get("k") == "Decl" and len(st.get("vars", [])) == 1 and st["vars"][0].get("init") is not None:
+                    iu = unwrap_all_casts(st["vars"][0]["init"])
+                    while isinstance(iu, dict) and iu.get("k") == "Construct" and len(iu.get("args", [])) == 1:
+                        iu = unwrap_all_casts(iu["args"][0])
+                    if isinstance(iu, dict) and iu.get("k") == "Cond":
+                        for br, neg in ((iu.get("a"), False), (iu.get("b"), True)):
+                            rp_ = path(unwrap_all_casts(br)) if isinstance(br, dict) else None
+                            if rp_ and rp_[-1] == "m_file_preamble":
+                                cc = cond(iu["c"], env)
+                                ref_assign = (("l:%s#%s" % (st["vars"][0]["n"], st["vars"][0]["id"]),), st, ir.f_and(g, ir.f_not(cc) if neg else cc))
         if ref_assign is None:
             # member by member: the three version members of a local preamble from reader.m_file_preamble, under one guard
             mw = {}
